@@ -116,7 +116,8 @@ class NetworkXPropertyGraph(ABCPropertyGraph, NetworkXMixin):
         # very similar to Neo4j, but doesn't compare to NEO4j_NONE
         _, node_props = self.get_node_properties(node_id=node_id)
         prop_str = node_props.get(prop_name, None)
-        if prop_str is None:
+        # a property blanked to '' (what un-merging leaves where it cannot unset) is not set either
+        if prop_str is None or prop_str == '':
             return None
         try:
             prop_val = json.loads(prop_str)
